@@ -12,6 +12,7 @@ are derived from the global step counter at stops and op boundaries.
 import gc
 import math
 import sys
+import _thread
 import threading
 import zlib
 import random
@@ -33,6 +34,9 @@ class SimBudget(BaseException):
     """An op exceeded its step budget (I3)."""
 
 
+MAX_SWITCHES = 30000
+
+
 class Client:
     __slots__ = ('cid', 'ops', 'env', 'sem', 'thread', 'ev', 'op_i', 'op_ev', 'results', 'done',
                  'faults', 'fired', 'budgets', 'op_evs', 'prio', 'pending_fault', 'gcs', 'rp', 'since', 'next_sw')
@@ -41,7 +45,10 @@ class Client:
         self.cid = cid
         self.ops = ops
         self.env = env
-        self.sem = threading.Semaphore(0)
+        # the baton: a raw lock used as a binary semaphore (starts 'taken').  Its acquire / release are C calls, so a client that
+        # sits a frame or two below the interpreter's recursion limit can still give the baton away and go to sleep
+        self.sem = _thread.allocate_lock()
+        self.sem.acquire()
         self.thread = None
         self.ev = 0            # events of this client in completed ops
         self.op_i = -1
@@ -307,11 +314,22 @@ class Sim:
                 gc.collect()
             # --- switch?
             nxt = self._decide(c, ev, sc)
+            if nxt is not None and nxt is not c and len(self.switches) >= MAX_SWITCHES:
+                nxt = None      # a run is bounded in hand-overs too (each costs ~0.1 ms): from here on clients run to completion in turn
             if nxt is not None and nxt is not c:
+                self._overlap(c)
+                # everything that needs a Python-level call is done BEFORE the baton moves: a RecursionError here (the client
+                # is at the edge of the interpreter's limit) leaves the schedule where it was
+                nxt.since = 0
+                if self.kind == 'bernoulli':
+                    nxt.next_sw = self._draw_gap()
+                self._plan_stop(nxt)
+                # the hand-over itself: attribute stores and C calls only
                 self.switches.append([c.cid, c.op_i, ev, nxt.cid])
                 self.switch_sites.append((c.cid, sc >> 3, pos))
-                self._overlap(c)
-                self._handoff(nxt)
+                self.current = nxt
+                self.mark = self.step
+                nxt.sem.release()
                 c.sem.acquire()
                 # c has the baton again (the hand-off to c already reset mark / stop for it)
         finally:
@@ -366,11 +384,13 @@ class Sim:
         """Rare-condition probe: which in-scope functions are on the stacks of two clients at once."""
         names = set()
         f = sys._getframe(3)
-        while f is not None:
+        left = 80       # innermost frames only: a client thousands of frames deep must not pay for its depth at every switch
+        while f is not None and left:
             code = f.f_code
             if self.scope_cache.get(code):
                 names.add(code.co_name)
             f = f.f_back
+            left -= 1
         c_names = self.stack_names
         c_names[c.cid] = names
         for cid, other in c_names.items():
